@@ -13,7 +13,7 @@ ID = "C11"
 LEAN_MODULES = ["QtyModel.Props.C11", "QtyModel.Props.TieAnalyze", "QtyModel.Props.TieCodegen", "QtyModel.Props.TieConstants"]
 HARNESS_GROUPS = ()
 # kinds of difference in the macro-level correspondence (tools/macrofront.py) that are failing inputs here
-MACRO_PARTS = ("verdict:rejected", "units", "consts", "variants", "impls", "arms")
+MACRO_PARTS = ("verdict:rejected", "units", "consts", "variants", "impls", "arms", "items")
 RULE = ("seeded random well-formed definitions (1..10 units, identifiers with digits/acronyms/underscores, symbols incl. "
         "non-ASCII, integer/float/exponent literal forms, optional SI prefix and doc, attributes in random order, with / "
         "without reference unit, single unit, derived A*B, A*A, A/B, AmountT/B), each also as a twin with permuted "
